@@ -312,6 +312,8 @@ def impl_utf8(h):
 
 def correspondence(rep, rng, tier):
     quick = tier == 'quick'
+    from .. import pipeline as _PL
+    _PL.section_e2e(rep, rng, tier, n=(120 if quick else 3000), plain=0.7)
     n_main = 500 if quick else 8000
     main = [mk_case(gen_file(rng), gen_prior(rng)) for _ in range(n_main)]
     run_section(rep, 'v2', main, line_v2, impl_v2,
@@ -360,6 +362,9 @@ def replay(path):
         r = json.load(fd)
     rp = r['replay']
     sec, case = rp['section'], rp['case']
+    if sec == 'end-to-end':
+        from .. import pipeline as _PL
+        return _PL.replay_e2e(case, 'C02', path)
     fns = {'v2': (line_v2, impl_v2, lambda c, g: oracle_file(c['file'], g, False)),
            'v2-k1': (line_v2, impl_v2, lambda c, g: oracle_file(c['file'], g, True)),
            'v2-malformed': (line_v2, impl_v2, None), 'v2-seq': (line_seq, impl_seq, oracle_seq),
@@ -386,7 +391,11 @@ def replay(path):
 LEVEL_TEXT = ('Lean theorems over the reader/construct model of parse_v2 for ALL well-formed v2 files (any thread map, padding '
               'length, record list) and ANY prior tables: v2_events_partial (events = records decoded, in order, exactly m), '
               'v2_tables (+ v2_tables_seq, v2_lookup_last_wins: tables = the file\'s thread map, later key wins, no residue), '
-              'v2_pad_eats_record (negative witness for K1); the model is tied to the code by differential runs on generated '
+              'v2_pad_eats_record (negative witness for K1); composed with C01 and the layers behind the container: '
+              'e2e_dump_of_encoded (what traces()/formatted_traces work on = the file\'s thread map and the decodings of its '
+              'records, no container exception), e2e_threadmap_of_encoded (thread map half without the K1 hypothesis), '
+              'e2e_lines_of_encoded (lines of the file\'s bytes = line builder over traces of thread map + decoded records, '
+              'only the trace layer\'s exception); the model is tied to the code by differential runs on generated '
               'files, malformed files, parse sequences and the public kevents() entry point, including read counters.')
 LEVEL_NOTE = ('Partial: v2_events_partial carries the hypothesis "no records, or first record byte != 0" — without it the real '
               'code loses or misaligns records (known finding K1, reproduced on model and code every run). Trusted: Lean kernel, '
